@@ -223,7 +223,7 @@ var c05Failing = []func() gast.Expr{
 }
 
 func TestC05(t *testing.T) {
-	col := stats.New("C05", "well-typed expression trees (int, float, string, bool, time) generated type-directed over all operators, operand kinds (every int/uint/float width through fields, slices, maps, nested pointers, interfaces, JSON members, top-level variables), literals, built-in string/array/map functions, fact methods (variadic, chains) and short-circuit shapes whose skipped operand would fail; each tree is printed in 4 legal renderings (spacing, comments, redundant parentheses, keyword case, literal notation, quoting) and evaluated by the engine as an assigned value (typed sink) and, for booleans, as a rule condition; the oracle is the harness's reference interpreter written from the documentation. Non-trivial: at least 3 binary operators from at least 2 precedence levels. Distinct by canonical text plus state seed.",
+	col := stats.New("C05", "well-typed expression trees (int, float, string, bool, time) generated type-directed over all operators, operand kinds (every int/uint/float width through fields, slices, maps, nested pointers, interfaces, JSON members, top-level variables), literals, built-in string/array/map functions, fact methods (variadic, chains) and short-circuit shapes whose skipped operand would fail; each tree is printed in 4 legal renderings (spacing, comments, redundant parentheses, keyword case, literal notation, quoting) and evaluated by the engine as an assigned value (typed sink) and, for booleans, as a rule condition; the oracle is the harness's reference interpreter written from the documentation. Value-receiver methods of the nested object type are called on the struct value (F.Val), through pointers (F.Sub, F.Subs[i]) and on call results (F.Mk(k)). Non-trivial: at least 3 binary operators from at least 2 precedence levels. Distinct by canonical text plus state seed.",
 		"overflow, division by zero and NaN/Inf are excluded (cases whose reference evaluation hits them are discarded and counted)",
 		"the decimal format of floats inside string concatenations is undocumented: any rendering that parses back to the value within 1e-6 (or 1e-12 relative) is accepted",
 		"booleans and times are concatenated only on the right of a string (the only form the engine and its examples define)")
